@@ -119,6 +119,9 @@ Record cfg := {
   dec_edit : option cmp_method;     (* same for MsgEditValidator.CommissionRate (nil-safe) *)
   dec_exec : bool;                  (* the check looks into MsgExec.GetMessages() *)
   dec_rec : bool;                   (* … re-applying itself, i.e. to any depth *)
+  cont_exec : bool;                 (* after a MsgExec whose content was checked the scan of the list goes on *)
+  cont_staking : bool;              (* after a create/edit message within the cap the scan goes on *)
+  cont_other : bool;                (* after any other message the scan goes on *)
   wasm_check : bool                 (* wasmext.handleSdkMessage applies the same check before routing *)
 }.
 
@@ -147,13 +150,39 @@ Definition leaf_over (c : cfg) (l : leaf) : bool :=
   | _ => false
   end.
 
-(** checkCommission(msgs): [lvl] = number of MsgExec levels already entered *)
+(** the loop of checkCommission over one message list: [f x] = "x is rejected", [stop x] = "the function
+    returns after x without looking at the rest of the list" (an early return is a bug: later messages of the
+    same list escape the check) *)
+Section Scan.
+  Variables (f stop : msg -> bool).
+  Fixpoint scan (ms : list msg) : bool :=
+    match ms with
+    | [] => false
+    | x :: r => f x || (if stop x then false else scan r)
+    end.
+End Scan.
+
+Definition looks_into (c : cfg) (lvl : nat) : bool := dec_exec c && (dec_rec c || Nat.eqb lvl 0).
+
+(** does the scan of a list at nesting level [lvl] end after message [x]? *)
+Definition stops (c : cfg) (lvl : nat) (x : msg) : bool :=
+  match x with
+  | Exec _ _ => if looks_into c lvl then negb (cont_exec c) else negb (cont_other c)
+  | Leaf (CreateVal _ _ _ _) => match dec_create c with Some _ => negb (cont_staking c) | None => negb (cont_other c) end
+  | Leaf (EditVal _ _) => match dec_edit c with Some _ => negb (cont_staking c) | None => negb (cont_other c) end
+  | _ => negb (cont_other c)
+  end.
+
+(** checkCommission on one message found at nesting level [lvl] (0 = a message of the transaction itself) *)
 Fixpoint dec_rejects (c : cfg) (lvl : nat) (t : msg) : bool :=
   match t with
   | Leaf l => leaf_over c l
-  | Exec _ cs => if dec_exec c && (dec_rec c || Nat.eqb lvl 0) then existsb (dec_rejects c (S lvl)) cs else false
+  | Exec _ cs => if looks_into c lvl then scan (dec_rejects c (S lvl)) (stops c (S lvl)) cs else false
   | _ => false
   end.
+
+(** checkCommission(tx.GetMsgs()) *)
+Definition dec_rejects_list (c : cfg) (ms : list msg) : bool := scan (dec_rejects c 0) (stops c 0) ms.
 
 (** wasmext.handleSdkMessage: ante.CheckStakingCommission([]sdk.Msg{msg}) when present *)
 Definition wasm_admits (c : cfg) (ctr : addr) (t : msg) : bool :=
@@ -188,7 +217,7 @@ Definition ante_ok (c : cfg) (x : tx) : bool :=
       negb (Nat.eqb (List.length (t_msgs x)) 0)
       && (if sig_on c then forallb (fun m => Nat.eqb (signer_msg m) (t_signer x)) (t_msgs x) else true)
       && (if vb_on c then forallb basic_msg (t_msgs x) else true)
-      && negb (dec_on c && existsb (dec_rejects c 0) (t_msgs x))
+      && negb (dec_on c && dec_rejects_list c (t_msgs x))
   | RouteEVM =>
       (* none of the messages of this model is a MsgEthereumTx *)
       negb (evm_only_eth c) && negb (Nat.eqb (List.length (t_msgs x)) 0)
@@ -230,7 +259,7 @@ Definition cmp_of_site (x : comparison_site) (operand : string) (need_nil_safe :
   then Some (c_method x) else None.
 
 Definition cfg_of_facts (nonevm evm : list string) (x : ext_facts) (g : guard) (cs es : comparison_site)
-           (mx : option Z) (wh : wasm_facts) (registered_ext : list string) : cfg :=
+           (sc : scan_facts) (mx : option Z) (wh : wasm_facts) (registered_ext : list string) : cfg :=
   {| cap := match mx with Some z => z | None => ONE + 1 end;
      nonevm_known := match route_of x NoExt with RouteNonEVM => true | _ => false end;
      evm_route := route_of x EvmExt;
@@ -245,24 +274,27 @@ Definition cfg_of_facts (nonevm evm : list string) (x : ext_facts) (g : guard) (
      dec_edit := if mem T_EDIT (g_tests g) then cmp_of_site es "msg.CommissionRate" true else None;
      dec_exec := mem T_EXEC (g_tests g) && g_into_exec g;
      dec_rec := g_recursive g;
+     cont_exec := s_after_exec sc && s_after_switch sc;
+     cont_staking := s_after_create sc && s_after_edit sc && s_after_switch sc;
+     cont_other := s_after_other sc && s_after_switch sc;
      wasm_check := w_commission_check wh |}.
 
 (** the code as committed with the two fix: commits (used for examples and witnesses) *)
 Definition cfg_fixed : cfg :=
   {| cap := CAP25; nonevm_known := true; evm_route := RouteEVM; other_route := RouteReject; evm_only_eth := true;
      vb_on := true; sig_on := true; dec_on := true; dec_create := Some CmpGT; dec_edit := Some CmpGT;
-     dec_exec := true; dec_rec := true; wasm_check := true |}.
+     dec_exec := true; dec_rec := true; cont_exec := true; cont_staking := true; cont_other := true; wasm_check := true |}.
 
 (** the decorator before fix ac46b2c: top-level messages only; no wasm check *)
 Definition cfg_before_fix : cfg :=
   {| cap := CAP25; nonevm_known := true; evm_route := RouteEVM; other_route := RouteReject; evm_only_eth := true;
      vb_on := true; sig_on := true; dec_on := true; dec_create := Some CmpGT; dec_edit := Some CmpGT;
-     dec_exec := false; dec_rec := false; wasm_check := false |}.
+     dec_exec := false; dec_rec := false; cont_exec := true; cont_staking := true; cont_other := true; wasm_check := false |}.
 
 (** recursive decorator, wasm handler without the check (between the two fixes) *)
 Definition cfg_no_wasm_check : cfg :=
   {| cap := CAP25; nonevm_known := true; evm_route := RouteEVM; other_route := RouteReject; evm_only_eth := true;
      vb_on := true; sig_on := true; dec_on := true; dec_create := Some CmpGT; dec_edit := Some CmpGT;
-     dec_exec := true; dec_rec := true; wasm_check := false |}.
+     dec_exec := true; dec_rec := true; cont_exec := true; cont_staking := true; cont_other := true; wasm_check := false |}.
 
 Definition st0 (minr : Z) : st := {| vals := []; grants := []; now := 0; min_rate := minr |}.
